@@ -70,6 +70,82 @@ Proof.
   apply Forall_app; split; [|apply IH; lia]. rewrite Forall_map. apply Forall_forall. auto.
 Qed.
 
+(* ---------- the iterator of the code (with the repair of begin()) yields exactly the weighted listing ---------- *)
+Lemma retained_app a b : retained (a ++ b) = retained a + retained b.
+Proof. induction a as [|l a IH]; [simpl; lia|]. simpl app. rewrite !retained_cons, IH. lia. Qed.
+
+Lemma bound_pre pre post : bound (pre ++ post) (length pre) = retained pre.
+Proof. unfold bound. rewrite firstn_app, Nat.sub_diag, firstn_all. simpl. now rewrite app_nil_r. Qed.
+
+Lemma bound_pre_S pre l post : bound (pre ++ l :: post) (S (length pre)) = retained pre + len l.
+Proof.
+  unfold bound. rewrite firstn_app. replace (S (length pre) - length pre)%nat with 1%nat by lia.
+  rewrite firstn_all2 by lia. cbn [firstn]. rewrite retained_app, retained_cons. cbn [retained fold_right]. lia.
+Qed.
+
+(* inside a level: the items left in it come out with the current weight, then operator++ leaves the level *)
+Lemma iter_go_level pre post Y w : forall rem done x lv, lv = pre ++ (done ++ x :: rem) :: post ->
+  iter_go ((x :: rem) ++ Y) lv (retained pre + len done) (length pre) w =
+  map (fun y => (y, w)) (x :: rem) ++
+  iter_go Y lv (retained pre + len (done ++ x :: rem))
+          (fst (iter_skip (S (length lv)) lv (length pre) w)) (snd (iter_skip (S (length lv)) lv (length pre) w)).
+Proof.
+  induction rem as [|y rem IH]; intros done x lv E.
+  - assert (B : bound lv (S (length pre)) = retained pre + len (done ++ [x])) by (rewrite E; apply bound_pre_S).
+    cbn [app iter_go map]. rewrite B.
+    replace (retained pre + len done + 1 =? retained pre + len (done ++ [x])) with true
+      by (symmetry; apply Z.eqb_eq; rewrite len_app, len_cons, len_nil; lia).
+    destruct (iter_skip (S (length lv)) lv (length pre) w) as [l' w']. cbn [fst snd].
+    f_equal. f_equal. rewrite len_app, len_cons, len_nil. lia.
+  - assert (B : bound lv (S (length pre)) = retained pre + len (done ++ x :: y :: rem)) by (rewrite E; apply bound_pre_S).
+    change ((x :: y :: rem) ++ Y) with (x :: (y :: rem) ++ Y). cbn [iter_go]. rewrite B.
+    replace (retained pre + len done + 1 =? retained pre + len (done ++ x :: y :: rem)) with false
+      by (symmetry; apply Z.eqb_neq; rewrite len_app, !len_cons; pose proof (len_nonneg rem); lia).
+    cbn [map app]. f_equal.
+    specialize (IH (done ++ [x]) y lv). rewrite <- app_assoc in IH. specialize (IH E).
+    rewrite len_app, len_cons, len_nil in IH. replace (retained pre + len done + 1) with (retained pre + (len done + (1 + 0))) by lia.
+    exact IH.
+Qed.
+
+(* from the first position of a level, after the empty levels have been skipped *)
+Lemma iter_from_spec : forall post pre w fuel lv, lv = pre ++ post -> (length post < fuel)%nat ->
+  iter_go (concat post) lv (retained pre) (fst (iter_while fuel lv (length pre) w)) (snd (iter_while fuel lv (length pre) w))
+  = iter_spec w post.
+Proof.
+  induction post as [|l ps IH]; intros pre w fuel lv E F.
+  - reflexivity.
+  - destruct fuel as [|f]; [lia|]. cbn [iter_while].
+    replace (length pre <? length lv)%nat with true
+      by (symmetry; apply Nat.ltb_lt; rewrite E, app_length; simpl; lia).
+    assert (B1 : bound lv (length pre) = retained pre) by (rewrite E; apply bound_pre).
+    assert (B2 : bound lv (S (length pre)) = retained pre + len l) by (rewrite E; apply bound_pre_S).
+    rewrite B1, B2. cbn [andb length] in *. clear B1 B2.
+    destruct l as [|x rem].
+    + replace (retained pre =? retained pre + len (@nil Z)) with true by (symmetry; apply Z.eqb_eq; rewrite len_nil; lia).
+      cbn [concat app iter_spec map].
+      specialize (IH (pre ++ [[]]) (2 * w) f lv). rewrite <- app_assoc in IH. specialize (IH E ltac:(lia)).
+      rewrite app_length, retained_app in IH. cbn [length retained fold_right] in IH. change (len (@nil Z)) with 0 in IH.
+      replace (length pre + 1)%nat with (S (length pre)) in IH by lia.
+      replace (retained pre + (0 + 0)) with (retained pre) in IH by lia. exact IH.
+    + replace (retained pre =? retained pre + len (x :: rem)) with false
+        by (symmetry; apply Z.eqb_neq; rewrite len_cons; pose proof (len_nonneg rem); lia).
+      cbn [fst snd concat iter_spec].
+      pose proof (iter_go_level pre ps (concat ps) w rem [] x lv E) as G.
+      rewrite len_nil, Z.add_0_r in G. cbn [app] in G. cbn [app]. rewrite G. f_equal.
+      unfold iter_skip.
+      specialize (IH (pre ++ [x :: rem]) (2 * w) (S (length lv)) lv). rewrite <- app_assoc in IH.
+      specialize (IH E). rewrite app_length, retained_app in IH. cbn [length retained fold_right] in IH.
+      replace (length pre + 1)%nat with (S (length pre)) in IH by lia.
+      replace (retained pre + (len (x :: rem) + 0)) with (retained pre + len (x :: rem)) in IH by lia.
+      apply IH. rewrite E, app_length. simpl. lia.
+Qed.
+
+Theorem iterate_is_spec s : iterate s = iter_spec 1 (levels s).
+Proof.
+  unfold iterate. pose proof (iter_from_spec (levels s) [] 1 (S (length (levels s))) (levels s) eq_refl ltac:(lia)) as H.
+  cbn [length retained fold_right] in H. destruct (iter_while (S (length (levels s))) (levels s) 0 1) as [l w]. exact H.
+Qed.
+
 (* ---------- the sorted view is a sorted arrangement of the weighted listing ---------- *)
 Lemma add_levels_perm : forall lv es w, Permutation (add_levels es w lv) (es ++ iter_spec w lv).
 Proof.
@@ -267,10 +343,12 @@ Section Reachable.
     unfold Space in Sp. rewrite <- (i_cap s I). auto.
   Qed.
 
-  Lemma P_iterator_fixed : len (iterate_fixed s) = num_retained s /\ sum_weights (iterate_fixed s) = nn s /\
-    (forall x w, In (x, w) (iterate_fixed s) <-> exists h, In x (nth h (levels s) []) /\ w = 2 ^ Z.of_nat h).
+  (* the iterator of the code: num_retained entries, weight 2^level for the items of each level, weights summing to n *)
+  Lemma P_iterator : iterate s = iter_spec 1 (levels s) /\ len (iterate s) = num_retained s /\ sum_weights (iterate s) = nn s /\
+    (forall x w, In (x, w) (iterate s) <-> exists h, In x (nth h (levels s) []) /\ w = 2 ^ Z.of_nat h).
   Proof.
-    destruct (reach_Rel _ _ R) as [I _ _ _ _]. unfold iterate_fixed. split; [apply iter_spec_length|].
+    destruct (reach_Rel _ _ R) as [I _ _ _ _]. split; [apply iterate_is_spec|]. rewrite iterate_is_spec.
+    split; [apply iter_spec_length|].
     split; [rewrite iter_spec_sum; apply (i_w s I)|].
     intros x w. rewrite iter_spec_in. split; intros (h & A & B); exists h; split; auto; lia.
   Qed.
